@@ -53,4 +53,32 @@ Match(x, sans, cn, ci) ==
        /\ cn.kind = "dns" /\ DnsEq(cn, x)
 
 \* the matching result does not depend on the position of entries in the list (checked on the universe of MxName_MC)
+
+(* ------------------------------------------------------------------ validation options *)
+(* matrixValidateCertsOptions_t as the application sets it (session options or a direct call):                     *)
+(*   nt        nameType: "any" (legacy default: every supported field), "host" (dNSName and CN), "cn", "dns",       *)
+(*             "email", "ip"                                                                                        *)
+(*   cnalways  VCERTS_MFLAG_ALWAYS_CHECK_SUBJECT_CN - CnAlways, a documented override of the statement's            *)
+(*             "common name only without a supported subjectAltName" (RFC 6125 6.4.4)                                *)
+(*   ci        VCERTS_MFLAG_SAN_EMAIL_CASE_INSENSITIVE_LOCAL_PART                                                    *)
+(* cnalways together with a SAN-only name type is an illegal combination: the validation call is refused, and a     *)
+(* refused validation authenticates nobody.                                                                          *)
+(* The expected string is given as v = [dns, email, ip]: the same bytes read as a name of each kind (under "any"    *)
+(* the library compares it with entries of every kind).                                                              *)
+NameTypes == {"any", "host", "cn", "dns", "email", "ip"}
+AllowDns(nt) == nt \in {"any", "host", "dns"}
+AllowEmail(nt) == nt \in {"any", "email"}
+AllowIp(nt) == nt \in {"any", "ip"}
+AllowCn(nt) == nt \in {"any", "host", "cn"}
+LegalOpts(nt, cnalways) == cnalways => nt \in {"any", "host", "cn"}
+
+MatchOpt(v, sans, cn, nt, cnalways, ci) ==
+    /\ LegalOpts(nt, cnalways)
+    /\ \/ \E k \in 1..Len(sans) :
+             \/ sans[k].kind = "dns" /\ AllowDns(nt) /\ DnsEq(sans[k], v.dns)
+             \/ sans[k].kind = "email" /\ AllowEmail(nt) /\ EmailEq(sans[k], v.email, ci)
+             \/ sans[k].kind = "ip" /\ AllowIp(nt) /\ IpEq(sans[k], v.ip)
+       \/ /\ AllowCn(nt)
+          /\ cnalways \/ ~\E k \in 1..Len(sans) : SupportedSan(sans[k])     \* a supported entry blocks the CN whatever nt selects
+          /\ cn.kind = "dns" /\ DnsEq(cn, v.dns)
 =============================================================================
